@@ -338,6 +338,27 @@ func expand(seed uint64, n, kind int) []byte {
 		for i := range b {
 			b[i] = pat[i%per]
 		}
+	case 4: // hexadecimal text of random bytes: a 16-letter alphabet gives snappy occasional short matches inside long literals
+		const hexdigits = "0123456789abcdef"
+		for i := 0; i < n; i += 16 {
+			v := next()
+			for j := 0; j < 16 && i+j < n; j++ {
+				b[i+j] = hexdigits[(v>>(4*uint(j)))&15]
+			}
+		}
+	case 5: // worst case for snappy: random bytes with 4-byte repeats of material that lies 2 KiB or more back, every few bytes.
+		// Every repeat becomes a 3-byte copy but splits the literal run, so the block is LONGER than the input.
+		for i := 0; i < n; i += 8 {
+			v := next()
+			for j := 0; j < 8 && i+j < n; j++ {
+				b[i+j] = byte(v >> (8 * uint(j)))
+			}
+		}
+		gap := 7 + int(seed%9)
+		for i := 2100; i+4 <= n; i += gap {
+			src := i - 2048 - int(next()%50)
+			copy(b[i:i+4], b[src:src+4])
+		}
 	default: // position dependent but compressible
 		for i := range b {
 			b[i] = byte(i/251) ^ byte(i) ^ byte(seed)
@@ -458,7 +479,7 @@ func genStreamDir(t *rapid.T, minWrites int) streamDir {
 			break
 		}
 		total += sz
-		d.Writes = append(d.Writes, wspec{Size: sz, Kind: rapid.IntRange(0, 3).Draw(t, "wkind"), Seed: rapid.Uint64().Draw(t, "wseed")})
+		d.Writes = append(d.Writes, wspec{Size: sz, Kind: rapid.IntRange(0, 5).Draw(t, "wkind"), Seed: rapid.Uint64().Draw(t, "wseed")})
 	}
 	nb := rapid.IntRange(1, 5).Draw(t, "nbufs")
 	for i := 0; i < nb; i++ {
@@ -790,7 +811,7 @@ func genMconnPlan(t *rapid.T) mconnPlan {
 			pl.Ops[d] = append(pl.Ops[d], opSpec{
 				Ch:    rapid.IntRange(0, n-1).Draw(t, "opch"),
 				Size:  sz,
-				Kind:  rapid.IntRange(0, 3).Draw(t, "mkind"),
+				Kind:  rapid.IntRange(0, 5).Draw(t, "mkind"),
 				Seed:  rapid.Uint64().Draw(t, "mseed"),
 				Block: rapid.IntRange(0, 2).Draw(t, "block") != 0,
 			})
